@@ -1001,7 +1001,9 @@ class Container:
             A new plate and a new container, both modified.
         """
 
-        Unit.parse_quantity(quantity)  # (refused here if it is not one: a selection of no wells never looks at it)
+        # (refused here if it is not one: a selection of no wells never looks at it)
+        if Unit.parse_quantity(quantity)[1] not in ('L', 'g', 'mol', 'U') or Unit.parse_quantity(quantity)[0] < 0:
+            raise ValueError("Invalid quantity.")
 
         def helper_func(elem):
             """ Moves volume from elem to to_array[0]"""
@@ -3279,7 +3281,9 @@ class PlateSlicer(Slicer):
 
     @staticmethod
     def _transfer(frm: Container | PlateSlicer, to: PlateSlicer, quantity):
-        Unit.parse_quantity(quantity)  # (refused here if it is not one: a selection of no wells never looks at it)
+        # (refused here if it is not one: a selection of no wells never looks at it)
+        if Unit.parse_quantity(quantity)[1] not in ('L', 'g', 'mol', 'U') or Unit.parse_quantity(quantity)[0] < 0:
+            raise ValueError("Invalid quantity.")
         if isinstance(frm, Container):
             to = copy(to)
             to.plate = deepcopy(to.plate)
@@ -3576,7 +3580,9 @@ class PlateSlicer(Slicer):
         Returns: New Plate with desired final `quantity` in each well.
 
         """
-        Unit.parse_quantity(quantity)  # (refused here if it is not one: a selection of no wells never looks at it)
+        # (refused here if it is not one: a selection of no wells never looks at it)
+        if Unit.parse_quantity(quantity)[1] not in ('L', 'g', 'mol') or not Unit.parse_quantity(quantity)[0] > 0:
+            raise ValueError("Invalid quantity.")
         new_slice = copy(self)
         new_slice.plate = deepcopy(self.plate)
         new_slice.apply(lambda elem: elem.fill_to(solvent, quantity))
